@@ -20,6 +20,7 @@ EXPLANATION = (
     "store/delete discipline for the class-level and the instance-level component API (R-SIB: both agree).")
 EXPLANATION += (' get_class_component / get_component are three-case lookups without truthiness; a subclass constructor passes only None or its own None-defaulted parameter as tag.')
 EXPLANATION += (" An agent's own tag is written by Agent.__init__ only; the default-tag setter has no raising path; the private fields behind the documented `components` / `tag` views are located through the view properties.")
+EXPLANATION += (' The default-tag setter stores into its receiver only.')
 ASSUMPTIONS = ["metaclass __init__ runs for every class statement (language fact)", "user hierarchies have no metaclass conflicts"]
 
 META = CORE + '_MetaAgent'
@@ -102,12 +103,19 @@ def run(cx: Cx):
     # ... and the class-level API of one class never operates on another class: a call that reaches a class-level write through a
     # receiver other than `self` changes what a different class (a parent, a sibling) holds
     n_calls = 0
-    for mname in ('add_class_component', 'remove_class_component', '__init__'):
-        for mfn in meta.methods.get(mname, [])[:1]:
+    for mname in ('add_class_component', 'remove_class_component', '__init__', 'tag#setter'):
+        for mfn in ([prog.functions[META + '.tag#setter']] if mname == 'tag#setter' and (META + '.tag#setter') in prog.functions
+                    else meta.methods.get(mname, [])[:1]):
             self_sym = Sym(mfn.params[0]) if mfn.params else None
             hit = None
             for p in cx.walker.paths(mfn, WalkOptions(unroll=1, callee_raises=False)):
                 for e in p.events:
+                    if e.kind == 'store' and e.data.get('attr') in ('tag', FT, 'components', FC) and not _rooted_at(e.data.get('target'), self_sym) \
+                            and not any(o.key.endswith('class-level-operations-touch-the-receiver-only') for o in cx.violations()):
+                        # `subclass.tag = val` in the setter of the default tag: the change is pushed into other classes
+                        cx.violation('R-DISC', mfn.qualname, 'class-level-operations-touch-the-receiver-only',
+                                     f"{mfn.qualname} stores {e.data.get('attr')} of {e.data.get('target')!r}, another class: a change made "
+                                     f"on one class shows through its children (and their new untagged instances)", where=cx.where(mfn, e.line))
                     if e.kind != 'call' or e.data.get('target_kind') != 'pkg':
                         continue
                     n_calls += 1
